@@ -49,7 +49,7 @@ theorem noFull_isFull {α : Type} {r : Res α} (h : NoFull r) : r.isWriteBufferF
 
 theorem ccr_eq_or {α : Type} (w : World) (r : Res α) :
     w.checkConnectionReset r = (w, r) ∨
-    (r = .err (.io .reset) ∧
+    ((r = .err (.io .reset) ∨ r = .err .connectionClosed) ∧
       w.checkConnectionReset r = (w.setState .terminated, .err .connectionClosed)) := by
   cases r with
   | ok a => left; rfl
@@ -60,11 +60,11 @@ theorem ccr_eq_or {α : Type} (w : World) (r : Res α) :
       cases k with
       | reset =>
         unfold World.checkConnectionReset
-        dsimp only
-        by_cases hc : (!w.c.state.canRead) = true
-        · right; rw [if_pos hc]; exact ⟨rfl, rfl⟩
-        · left; rw [if_neg hc]
+        cases w.c.state.canRead
+        · right; exact ⟨Or.inl rfl, rfl⟩
+        · left; rfl
       | _ => left; rfl
+    | connectionClosed => right; exact ⟨Or.inr rfl, rfl⟩
     | _ => left; rfl
 
 /-! ## masking -/
